@@ -32,6 +32,35 @@ pub fn t_option_family() -> String {
     ))
 }
 
+pub struct Slot {
+    pub o: Option<(i64, i64)>,
+}
+
+impl Slot {
+    pub fn keep(mut self, v: (i64, i64)) -> Self {
+        self.o.get_or_insert(v);
+        self
+    }
+    pub fn set(mut self, v: (i64, i64)) -> Self {
+        self.o = Some(v);
+        self
+    }
+    pub fn put(mut self, v: (i64, i64)) -> Self {
+        let _ = self.o.insert(v);
+        self
+    }
+}
+
+pub fn t_option_setters() -> String {
+    let a = Slot { o: None }.keep((1, 2)).keep((3, 4));
+    let b = Slot { o: None }.set((5, 6)).keep((7, 8)).put((9, 10));
+    let mut c: Option<i64> = Some(1);
+    let old = c.replace(2);
+    let mut d: Option<i64> = None;
+    let got = *d.get_or_insert(4);
+    show!((a.o, b.o, c, old, d, got))
+}
+
 pub fn t_result_family() -> String {
     let a: Result<i64, String> = Ok(3);
     let b: Result<i64, String> = Err("bad".to_string());
@@ -462,6 +491,7 @@ pub fn all() -> Vec<(&'static str, String)> {
         ("t_mut_refs_to_scalars", t_mut_refs_to_scalars()),
         ("t_fn_values_and_lazy", t_fn_values_and_lazy()),
         ("t_option_family", t_option_family()),
+        ("t_option_setters", t_option_setters()),
         ("t_result_family", t_result_family()),
         ("t_bool_then", t_bool_then()),
         ("t_int_methods", t_int_methods()),
